@@ -89,6 +89,8 @@ class ArrivalStream(object):
         self.markedPosition = 0
         self.reads = 0
         self.nones = 0
+        self.last_read_short = False
+        self.eof_reads = 0
         self._update_closed()
 
     def _update_closed(self):
@@ -146,8 +148,10 @@ class ArrivalStream(object):
 
     def read(self, n=-1):
         self.reads += 1
+        self.last_read_short = False
         if self._pos >= self._avail:
             if self._closed:
+                self.eof_reads += 1
                 return b""
             self.nones += 1
             return None
@@ -157,6 +161,7 @@ class ArrivalStream(object):
             end = self._pos + n
             if end > self._avail:
                 end = self._avail
+                self.last_read_short = True
         r = self._data[self._pos:end]
         self._pos = end
         return r
